@@ -158,7 +158,7 @@ def main(tier):
     import mainloop, c09, c06, c07
     jobs += mainloop.jobs_for('C10', tier)
     import preloop
-    jobs += [(preloop.job_preloop, ('C10',))]      # the first record of a run started from a results file: everything it stores was recomputed from the loaded grid
+    jobs += [(preloop.job_preloop, ('C10',)), (preloop.job_rw_sets, ())]      # the first record of a run started from a results file: everything it stores was recomputed from the loaded grid
     # value clauses of the statement: stored moments are the moments of the stored profiles (C09), stored wake is the convolution (C06), intensity is the sum of the spectrum (C07)
     jobs += [(c09.job_moments, (6, 3, 2, ax, (-6, 6), (-6, 6))) for ax in (0, 1)] + [(c09.job_moments, (5, 2, 1, ax, (-5, 7), (-6.5, 5.5))) for ax in (0, 1)] + [(c09.job_normalize, (4, 3, 2))]
     jobs += [(c06.job_structure, (4, 12, 5, (1, 0))), (c07.job_spectrum, (4, 12, 5, (1, 0), 0))]
